@@ -1120,6 +1120,10 @@ func guarded(f func()) string {
 			limit = d
 		}
 	}
+	return guardedFor(limit, f)
+}
+
+func guardedFor(limit time.Duration, f func()) string {
 	const memLimit = 6 << 30
 	done := make(chan string, 1)
 	go func() { done <- protect(f) }()
@@ -1464,7 +1468,7 @@ func truncSweep(file []byte, poff int) {
 	for l := 0; l < len(file); l++ {
 		var r *ParquetReader
 		var err error
-		p := protect(func() {
+		p := guardedFor(20*time.Second, func() {
 			r, err = NewParquetReader(&source{data: file[:l]})
 			if err != nil {
 				return
@@ -1479,6 +1483,14 @@ func truncSweep(file []byte, poff int) {
 			}
 			err = r.Error()
 		})
+		if aborted != "" { // a runaway reader: report it as the result of this prefix and stop (the goroutine cannot be stopped)
+			res["npanicked"] = res["npanicked"].(int) + 1
+			res["panicked"], res["accepted"], res["detail"] = append(pan, l), acc, aborted
+			emit(res)
+			out.WriteString(`{"ev":"Aborted","detail":"driver stopped after a runaway call"}` + "\n")
+			out.Flush()
+			os.Exit(0)
+		}
 		switch {
 		case p != "":
 			if len(pan) < 8 {
